@@ -118,6 +118,19 @@ def iupLoop (ax : Bool) : List Nat → List ZPt → Nat → Option (List ZPt)
 
 def iup (ax : Bool) (pts : List ZPt) (ends : List Nat) : Option (List ZPt) := iupLoop ax ends pts 0
 
+/-! ### UTP, FLIPPT, FLIPRGON / FLIPRGOFF -/
+
+/-- `op_utp`: untouch along the non-zero components of the freedom vector. -/
+def utp (fv : Vec) (p : ZPt) : ZPt :=
+  { p with tx := if fv.x ≠ 0 then false else p.tx, ty := if fv.y ≠ 0 then false else p.ty }
+
+/-- `op_flippt`, one point: `flip_on_curve`. -/
+def flipPt (p : ZPt) : ZPt := { p with on := ¬ p.on }
+
+/-- `set_on_curve_for_range(on)` after the backward-compatibility test: `low_point ..= high_point`. -/
+def flipRange (pts : List ZPt) (lo hi : Nat) (on : Bool) : List ZPt :=
+  (pts.zipIdx).map fun (p, i) => if lo ≤ i ∧ i ≤ hi then { p with on := on } else p
+
 /-! ### IP -/
 
 /-- `op_ip`, one point: `new_distance` from `original_distance`, `cur_range`, `old_range`. -/
